@@ -8,7 +8,7 @@ EXTENDS TraceKit, OpMachine
 
 VARIABLES l, bad, st
 
-Failing == {"nan_rhs", "throw_inside"}       \* their own result is unspecified; what follows is not
+Failing == {"nan_rhs", "throw_inside", "throw_late", "poison_inside"}       \* their own result is unspecified; what follows is not
 CallClauses(r) ==
     << <<"call=fresh-object-bitwise", r.call \in Failing \/ r.same>>,
        <<"zero-rhs-returns-zero-in-zero-iterations", r.call = "zero_rhs" => (r.allzero /\ r.it = 0 /\ ~r.threw)>>,
